@@ -1078,7 +1078,19 @@ fn invalid_case() -> impl Strategy<Value = ParseCase> {
         };
         ParseCase { text, radix, entry }
     });
-    prop_oneof![5 => mutated, 4 => near, 2 => uni]
+    // one character of a valid digit run replaced by an ASCII neighbour: a single flipped bit
+    // (case folding with `| 0x20` / `^ 0x20` turns '0'..'9' into control characters), or any of the
+    // 128 ASCII characters
+    let ascii = (0u8..4, radix(), any::<u64>(), any::<u16>(), 0u8..9, any::<u8>()).prop_map(|(entry, radix, seed, pos, bit, raw)| {
+        let n = 1 + (seed % 24) as usize;
+        let mut chars: Vec<char> = (0..n).map(|k| digit_char(((seed >> (k % 50)) % radix as u64) as u32, (seed >> 60) & 1 == 1)).collect();
+        let i = pos as usize % n;
+        let c = chars[i] as u8;
+        let repl = if bit < 7 { c ^ (1 << bit) } else { raw & 0x7f };
+        chars[i] = repl as char;
+        ParseCase { text: chars.into_iter().collect(), radix, entry }
+    });
+    prop_oneof![5 => mutated, 4 => near, 2 => uni, 3 => ascii]
 }
 
 // ------------------------------------------------------------------------------------------------
